@@ -566,3 +566,6 @@ def replay(w):
     elif "ident" in w:
         check_identifier(w["ident"], res, naming, bp)
     return res.violations
+
+
+RULE += ' Enum value names with the enum-name prefix / remainder in lower, title and mixed case; every key spelling first seen with a JSON null, then with a value; the keys of a 70-field generated message (original proto names included) map back like on a one-field class.'
